@@ -43,7 +43,7 @@ func TestVerifC07(t *testing.T) {
 	defer out.Close()
 	c07Pauser = newVFPauser(250 * time.Microsecond)
 	defer c07Pauser.stop()
-	hangs := 0
+	hangs, wedges := 0, 0
 	for i, raw := range vReadCases(t) {
 		var c c07Case
 		if err := json.Unmarshal(raw, &c); err != nil {
@@ -60,6 +60,12 @@ func TestVerifC07(t *testing.T) {
 			if err := json.Unmarshal(raw, &sc); err != nil {
 				t.Fatal(err)
 			}
+			if hd.K == "stress" && wedges >= 2 {
+				// every wedged history costs c07sStall of real time; two concrete ones are reported, the rest is not run
+				res["k"], res["skipped"] = "stress", true
+				out.Emit(res)
+				continue
+			}
 			p, msg := vCatch(func() {
 				if hd.K == "birth" {
 					c07BirthProbe(res)
@@ -69,6 +75,9 @@ func TestVerifC07(t *testing.T) {
 			})
 			if p {
 				res["ok"], res["why"], res["panic"] = false, "panic: "+msg, true
+			}
+			if _, w := res["wedge"]; w {
+				wedges++
 			}
 			out.Emit(res)
 			continue
